@@ -43,6 +43,41 @@ theorem parallelize_verdict_same_for_all_schedules (c₁ c₂ : Bool) (fails : L
   rw [parallelize_verdict_schedule_irrelevant, parallelize_verdict_schedule_irrelevant]
   rw [any_fails_zip fails sees₁ h₁, any_fails_zip fails sees₂ h₂]
 
+/-- parallelize_schedule_irrelevant (which errors, in which order): the combined error lists
+    the failing jobs in JOB order; it depends on the schedule only through the SET of jobs that
+    ran and the point where dispatch stopped — never on the order in which jobs completed. -/
+theorem parallelize_errors_completion_order_irrelevant (fails : List Bool) (c₁ c₂ : List Nat) (stopAt : Option Nat)
+    (hsame : ∀ i, i ∈ c₁ ↔ i ∈ c₂) : joinedErrors fails c₁ stopAt = joinedErrors fails c₂ stopAt := by
+  unfold joinedErrors
+  have : ∀ i, c₁.contains i = c₂.contains i := by
+    intro i
+    apply Bool.eq_iff_iff.mpr
+    simp only [List.contains_iff_mem]
+    exact hsame i
+  simp only [this]
+
+/-- Without cancel-on-failure every job runs, so the combined error is exactly the failing jobs
+    in job order, whatever the schedule. -/
+theorem parallelize_errors_without_cancel (fails : List Bool) (completed : List Nat)
+    (hall : ∀ i, i < fails.length → i ∈ completed) :
+    joinedErrors fails completed none =
+      ((List.range fails.length).filter fun i => fails.getD i false).map .job := by
+  unfold joinedErrors
+  rw [← List.filterMap_eq_map, List.filterMap_filter]
+  apply filterMap_congr_mem
+  intro i hi
+  have hlt : i < fails.length := List.mem_range.mp hi
+  have hm : i ∈ completed := hall i hlt
+  cases hf : fails.getD i false <;> simp [hm, hf]
+
+/-- The recorded finding (fixed in /repo 6d16415): the old code listed the errors in
+    completion order, so two schedules of the same two failing jobs gave different outputs. -/
+theorem parallelize_error_order_counterexample :
+    joinedErrorsOld [true, true] [0, 1] ≠ joinedErrorsOld [true, true] [1, 0] := by decide
+
+example : joinedErrors [true, false, true] [2, 0, 1] none = [.job 0, .job 2] := by decide
+example : joinedErrors [true, false, true] [0] (some 1) = [.job 0, .ctx] := by decide
+
 /-- "collect concurrently, then sort" is canonical: any two completion orders of the same
     results give the same sorted list, provided the comparison is a total order on them
     (checkAndSortFiles sorts by path; annotation sets, module lists, directory lists and rule
